@@ -512,7 +512,8 @@ def save_score_midi(
 
     # add the time/key sigs to their corresponding tracks
     for part, m_events in meta_events.items():
-        tracks = part_track_map[part]
+        # (a part without notes has no track)
+        tracks = part_track_map.get(part, set())
         for tr in tracks:
             for t, me in m_events.items():
                 events[tr][t] = me + events[tr][t]
